@@ -381,6 +381,18 @@ def mode_writer(ctx):
                 ok = st.get('nmt->Mode') == m.enum(new) and st.get('nmt->Allowed') == mt[new]
                 cb = names.count('CONmtModeChange')
                 ok = ok and cb == (1 if old != new else 0)
+                # PDO (re-)initialisation exactly on a real transition INTO operational: a redundant start command on a
+                # node that is operational already must not re-initialise the PDOs (deferred / timed transmissions in
+                # flight would be lost), and leaving or staying elsewhere must not initialise them either
+                pdo_inits = names.count('COTPdoInit') + names.count('CORPdoInit')
+                want_inits = 2 if (new == 'CO_OPERATIONAL' and old != new) else 0
+                if ok and pdo_inits != want_inits:
+                    ctx.ob(P + ['C12', 'C13'], 'RF1-setmode', 'CONmtSetMode', site + ' (PDO initialisation)', None)
+                    ctx.find(P + ['C12', 'C13'], 'RF1-setmode', 'CONmtSetMode', 'setmode-pdo-init:%s:%s' % (old, new),
+                             m.loc('CONmtSetMode', m.funcs['CONmtSetMode'].line),
+                             'transition %s -> %s initialises the PDOs %d times, required %d (exactly on a real transition into '
+                             'OPERATIONAL: TPDO and RPDO once each)' % (old, new, pdo_inits, want_inits))
+                    continue
                 if ok:
                     ctx.ob(P, 'RF1-setmode', 'CONmtSetMode', site, 'Mode and Allowed=%02Xh stored, %d change callback' % (mt[new], cb))
                 else:
